@@ -170,6 +170,9 @@ def _halflife_to_int(halflife):
 
 def _times_to_int_array(times):
     times, _ = _convert_timestamp_to_tz_unaware(times)
+    if times.dtype.kind in "mM":
+        # the halflife is in nanoseconds (pd.Timedelta.value): put the clock in the same unit
+        times = times.astype(f"{times.dtype.kind}8[ns]")
     return times.view(np.int64)
 
 
